@@ -291,6 +291,19 @@ async fn upstream_tcp(sh: Arc<Shared>, k: u64, addr: IpAddr) {
                 if kind == "silent" {
                     continue;
                 }
+                if kind == "close" || kind == "halfclose" {
+                    // the upstream hangs up on the connection, with or without the beginning of a reply
+                    if kind == "halfclose" {
+                        let m = answer_for(&w.qname, w.qtype, &script, w.id);
+                        let bytes = dnswire::encode_plain(&m, false);
+                        let mut framed = (bytes.len() as u16).to_be_bytes().to_vec();
+                        framed.extend(&bytes[..bytes.len().min(7)]);
+                        let _ = wr.lock().await.write_all(&framed).await;
+                    }
+                    sh.emit(json!({"ev":"usend","up":k,"proto":"tcp","tok":tok,"kind":kind,"len":0}));
+                    let _ = wr.lock().await.shutdown().await;
+                    break;
+                }
                 if kind == "raw" {
                     // hostile reply over TCP; the frame length may lie too
                     let bytes = raw_reply(&b, &w, &script);
@@ -397,6 +410,7 @@ fn reply_json(b: &[u8]) -> Value {
            "an":w.secs[0].iter().map(rec_json).collect::<Vec<_>>(),
            "ns":w.secs[1].iter().map(rec_json).collect::<Vec<_>>(),
            "ar":w.secs[2].iter().filter(|r| r.rtype != 41).map(rec_json).collect::<Vec<_>>(),
+           "opt":w.secs.iter().map(|s| s.iter().filter(|r| r.rtype == 41).count()).sum::<usize>(),
            "len":b.len()})
 }
 
@@ -430,7 +444,7 @@ pub async fn client_query(sh: Arc<Shared>, q: Value) {
     };
     let common = json!({"q":qid,"listener":listener,"src":src.to_string(),"dst":dst.to_string(),"id":id,"tok":tok,
         "name":name.iter().map(|l| l.iter().map(|b| json!(b)).collect::<Vec<_>>()).collect::<Vec<_>>(),
-        "rd":q["rd"].as_bool().unwrap_or(true),"do":q["do"].as_bool().unwrap_or(false) && q["adv"].as_i64().unwrap_or(-1) >= 0,"cd":q["cd"].as_bool().unwrap_or(false),"client":client,"adv":q["adv"].as_i64().unwrap_or(-1).max(0),
+        "rd":q["rd"].as_bool().unwrap_or(true),"edns":q["adv"].as_i64().unwrap_or(-1) >= 0,"do":q["do"].as_bool().unwrap_or(false) && q["adv"].as_i64().unwrap_or(-1) >= 0,"cd":q["cd"].as_bool().unwrap_or(false),"client":client,"pipelined":false,"adv":q["adv"].as_i64().unwrap_or(-1).max(0),
         "upkind":q["upkind"].as_str().unwrap_or("ok"),"drops":q["drops"].as_u64().unwrap_or(0),"cached":q["cached"].as_bool().unwrap_or(false),
         "mixedcase":name.iter().any(|l| l.iter().any(|b| b.is_ascii_uppercase())),
         "qd":[name_digest(&name), q["qtype"].as_u64().unwrap_or(1), q["qclass"].as_u64().unwrap_or(1)],"len":bytes.len()});
@@ -521,6 +535,106 @@ pub async fn client_query(sh: Arc<Shared>, q: Value) {
         }
         if got == 0 {
             sh.emit(json!({"ev":"cnone","q":qid,"waited_ms":wait.as_millis() as u64}));
+        }
+    }
+}
+
+/// Several queries on ONE client TCP connection: all frames are written back to back (optionally cut into pieces of
+/// `chop` octets with pauses, so that frames straddle segments), then replies are read until every query has one
+/// or the time is up.  Events as for single queries (csend / crecv / cnone), replies matched by id.
+pub async fn client_pipeline(sh: Arc<Shared>, qs: Vec<Value>) {
+    let l = listeners();
+    let q0 = &qs[0];
+    let listener = q0["listener"].as_str().unwrap_or("dual4");
+    let src: IpAddr = q0["src"].as_str().unwrap_or(match listener {
+        "v4" | "dual4" => "127.0.20.1",
+        _ => "::1",
+    }).parse().unwrap();
+    let dst: SocketAddr = match listener {
+        "v4" => l.v4,
+        "v6" => l.v6,
+        "dual4" => SocketAddr::new(q0["dst"].as_str().unwrap_or("127.0.0.1").parse().unwrap(), l.dual),
+        _ => SocketAddr::new(q0["dst"].as_str().unwrap_or("::1").parse().unwrap(), l.dual),
+    };
+    let client = match src {
+        IpAddr::V4(a) => json!({"fam":"v4","a":a.octets()}),
+        IpAddr::V6(a) => json!({"fam":"v6","a":a.octets()}),
+    };
+    let mut stream_bytes = vec![];
+    let mut ids: HashMap<u16, Value> = HashMap::new();
+    for q in &qs {
+        let name: dnswire::Name = q["name"].as_array().unwrap().iter().map(|l| l.as_str().unwrap().as_bytes().to_vec()).collect();
+        let id = q["id"].as_u64().unwrap() as u16;
+        let edns = q["adv"].as_i64().filter(|a| *a >= 0).map(|a| (a as u16, q["do"].as_bool().unwrap_or(false), vec![]));
+        let qtype = q["qtype"].as_u64().unwrap_or(1) as u16;
+        let bytes = build_query(id, q["rd"].as_bool().unwrap_or(true), q["cd"].as_bool().unwrap_or(false), false, &name, qtype, 1, edns);
+        stream_bytes.extend((bytes.len() as u16).to_be_bytes());
+        stream_bytes.extend(&bytes);
+        ids.insert(id, q["q"].clone());
+        sh.emit(json!({"ev":"csend","q":q["q"],"listener":listener,"src":src.to_string(),"dst":dst.to_string(),"id":id,"tok":token_of(&name, qtype),
+            "name":name.iter().map(|l| l.iter().map(|b| json!(b)).collect::<Vec<_>>()).collect::<Vec<_>>(),
+            "rd":q["rd"].as_bool().unwrap_or(true),"edns":q["adv"].as_i64().unwrap_or(-1) >= 0,"do":q["do"].as_bool().unwrap_or(false) && q["adv"].as_i64().unwrap_or(-1) >= 0,"cd":q["cd"].as_bool().unwrap_or(false),
+            "client":client,"adv":q["adv"].as_i64().unwrap_or(-1).max(0),"upkind":q["upkind"].as_str().unwrap_or("ok"),"drops":q["drops"].as_u64().unwrap_or(0),
+            "cached":q["cached"].as_bool().unwrap_or(false),"mixedcase":name.iter().any(|l| l.iter().any(|b| b.is_ascii_uppercase())),
+            "qd":[name_digest(&name), qtype, 1],"len":bytes.len(),"proto":"tcp","sport":0,"pipelined":true}));
+    }
+    let sock = if src.is_ipv4() { tokio::net::TcpSocket::new_v4() } else { tokio::net::TcpSocket::new_v6() }.unwrap();
+    let _ = sock.bind(SocketAddr::new(src, 0));
+    let mut s = match tokio::time::timeout(std::time::Duration::from_secs(3), sock.connect(dst)).await {
+        Ok(Ok(s)) => s,
+        _ => {
+            for q in &qs {
+                sh.emit(json!({"ev":"cnone","q":q["q"],"waited_ms":0,"why":"connect failed"}));
+            }
+            return;
+        }
+    };
+    let chop = q0["chop"].as_u64().unwrap_or(0) as usize;
+    if chop == 0 {
+        let _ = s.write_all(&stream_bytes).await;
+    } else {
+        for piece in stream_bytes.chunks(chop) {
+            let _ = s.write_all(piece).await;
+            let _ = s.flush().await;
+            tokio::time::sleep(std::time::Duration::from_millis(3)).await;
+        }
+    }
+    let wait = std::time::Duration::from_millis(q0["wait_ms"].as_u64().unwrap_or(5000));
+    let end = tokio::time::Instant::now() + wait;
+    let mut answered: std::collections::HashSet<u16> = Default::default();
+    let mut counts: HashMap<u16, u64> = HashMap::new();
+    loop {
+        let left = end.saturating_duration_since(tokio::time::Instant::now());
+        // once everybody has a reply, linger a little for duplicates
+        let budget = if answered.len() == ids.len() { std::time::Duration::from_millis(200) } else { left };
+        if budget.is_zero() {
+            break;
+        }
+        let mut lb = [0u8; 2];
+        match tokio::time::timeout(budget, s.read_exact(&mut lb)).await {
+            Ok(Ok(_)) => {
+                let mut b = vec![0u8; u16::from_be_bytes(lb) as usize];
+                if tokio::time::timeout(std::time::Duration::from_secs(3), s.read_exact(&mut b)).await.map(|r| r.is_err()).unwrap_or(true) {
+                    break;
+                }
+                let id = if b.len() >= 2 { u16::from_be_bytes([b[0], b[1]]) } else { 0 };
+                let mut r = reply_json(&b);
+                let n = counts.entry(id).or_insert(0);
+                *n += 1;
+                r["ev"] = json!("crecv");
+                r["q"] = ids.get(&id).cloned().unwrap_or(json!(-1));
+                r["nth"] = json!(*n);
+                r["from"] = json!(dst.to_string());
+                r["from_ok"] = json!(true);
+                sh.emit(r);
+                answered.insert(id);
+            }
+            _ => break,
+        }
+    }
+    for (id, q) in &ids {
+        if !answered.contains(id) {
+            sh.emit(json!({"ev":"cnone","q":q,"waited_ms":wait.as_millis() as u64}));
         }
     }
 }
@@ -629,11 +743,20 @@ fn dns(args: &[String]) {
             }
             for wave in waves {
                 let mut hs = vec![];
+                // queries with the same "pipe" number share one TCP connection
+                let mut pipes: std::collections::BTreeMap<u64, Vec<Value>> = Default::default();
                 for q in wave {
+                    if let Some(p) = q["pipe"].as_u64() {
+                        pipes.entry(p).or_default().push(q);
+                        continue;
+                    }
                     if let Some(d) = q["sleep_before_ms"].as_u64() {
                         tokio::time::sleep(std::time::Duration::from_millis(d)).await;
                     }
                     hs.push(tokio::spawn(client_query(sh.clone(), q)));
+                }
+                for (_, qs) in pipes {
+                    hs.push(tokio::spawn(client_pipeline(sh.clone(), qs)));
                 }
                 for h in hs {
                     let _ = h.await;
